@@ -68,7 +68,7 @@ for _pid, _more in {
     "C14": " The same System object used twice (generator / single generation in every order) follows the same pick law both times.",
     "C15": " A negative entry in a transition list with a non-negative sum: generation refuses.",
     "C18": " A generation still drawing after 400 random decisions (graphs are bounded by 60 atoms) is reported as non-terminating and replayed.",
-    "C19": " Two more molecules outside the ensemble per member (a double bond between two residues; the last one-atom token missing) must get probability 0 for every law.",
+    "C19": " Two more molecules outside the ensemble per member (a double bond between two residues; the last one-atom token missing) must get probability 0 for every law; a suffix token whose descriptor carries the weight 0; an exception of get_ensemble_prob for a member is a violation.",
     "C20": " Two atom orders of one molecule with fused / hetero-aromatic rings typed through MolGen.forcefield_types get element masses and the same parameter sets (concrete molecules, the solver chooses the pair).",
 }.items():
     CHECKS[_pid]["text"] += _more
